@@ -3,7 +3,7 @@
     correspondence run, with an independent calendar computation in the harness). *)
 From Coq Require Import String Ascii.
 From Cel.Model Require Import Builtins.
-From Cel.Proofs Require Import TimestampProofs TimestampRoundtrip.
+From Cel.Proofs Require Import TimestampProofs TimestampRoundtrip DayOfYear.
 Open Scope Z_scope.
 
 (** The calendar conversions invert each other for every day number and every valid
@@ -74,7 +74,23 @@ Proof.
   cbn [b_string obind run_builtin]. now rewrite H.
 Qed.
 
+(** getDayOfYear is the ordinal of the local date as a calendar defines it - the days of the earlier
+    months of the local year plus the day of the month, counted from 0 ([ordinal0], what chrono's
+    Datelike::ordinal0 is) - and lies in 0..364, 0..365 in a leap year, for every timestamp: instants
+    and offsets are unbounded integers here, so chrono's limit instants seen from any offset (F27)
+    are included. *)
+Theorem C16_day_of_year : forall ns off,
+  let f := local_fields ns off in
+  access ADayOfYear ns off = ordinal0 (f_year f) (f_month f) (f_day f) /\
+  0 <= access ADayOfYear ns off <= last_ordinal (f_year f).
+Proof. exact day_of_year_spec. Qed.
+
+Example C16_ex_ordinals : ordinal0 2024 3 1 = 60 /\ ordinal0 2023 3 1 = 59 /\ ordinal0 2024 12 31 = 365 /\
+  access ADayOfYear (-8334601228800000000000) (-3600) = 365.     (* MIN_UTC seen from -01:00 *)
+Proof. repeat split; reflexivity. Qed.
+
 Print Assumptions C16_civil_roundtrip.
+Print Assumptions C16_day_of_year.
 Print Assumptions C16_text_roundtrip.
 Print Assumptions C16_fields.
 Print Assumptions C16_accessors.
